@@ -376,6 +376,20 @@ async fn perform_submits(
     let queues = autoalloc
         .queues()
         .filter(|(_, queue)| queue.state().is_active())
+        .filter(|(id, queue)| {
+            // The worker query is refused as a whole if any of its descriptors is invalid, so a
+            // queue with an invalid descriptor must not take part in it.
+            let query = create_queue_worker_query(queue);
+            match query.descriptor.validate(!query.partial) {
+                Ok(()) => true,
+                Err(error) => {
+                    log::error!(
+                        "Queue {id} has an invalid worker resource descriptor, no allocations will be submitted into it: {error:?}"
+                    );
+                    false
+                }
+            }
+        })
         .collect::<Vec<_>>();
     if queues.is_empty() {
         return Ok(());
